@@ -45,7 +45,8 @@ class WorldC05(World):
     PROBES = ('overwrite-smaller', 'overwrite-larger', 'write-after-failed-write', 'read-of-torn-file',
               'read-absent', 'two-digit-count', 'three-digit-count', 'four-elements', 'name-15-chars',
               'name-starts-with-digit', 'zero-count-entry', 'dict-input', 'tuple-read', 'dict-read', 'crlf-newline',
-              'supp-data', 'supp-txt', 'supp-record-shares-a-name', 'second-generation', 'rewrite-after-in-place-edit', 'no-date', 'extreme-coefficients', 'zero-coefficient', '>=50-species',
+              'supp-data', 'supp-txt', 'supp-record-shares-a-name', 'second-generation', 'rewrite-after-in-place-edit', 'cross-encoding-read-refused', 'non-ascii-name', 'same-length-overwrite',
+              'persistent-fault', 'no-date', 'extreme-coefficients', 'zero-coefficient', '>=50-species',
               'clock-jump-before-write', 'fault-did-not-fire', 'comment-with-keyword', 'two-letter-three-digit', 'recovery-after-fault')
     REAL = ('pmutt.io.thermdat.write_thermdat / read_thermdat and helpers', 'pmutt.empirical.nasa.Nasa')
     SIMULATED = ('disk: SimFS shim over a scratch directory (open/write/close errors, ENOSPC after k chars, crash at '
@@ -79,6 +80,11 @@ class WorldC05(World):
     def gen_swarm(self, rng, tier):
         sw = self._gen_swarm0(rng, tier)
         sw['upper_symbols'] = rng.random() < 0.25
+        sw['fs_mtime_res'] = rng.choice([1.0, 1.0, 2.0, 0.001])
+        # a writer under a Latin-1 locale, a reader under UTF-8 (and names / notes that are not ASCII)
+        sw['fs_write_encoding'] = rng.choice(['utf-8', 'utf-8', 'utf-8', 'latin-1'])
+        sw['non_ascii'] = rng.random() < 0.3
+        sw['w_same_shape'] = rng.choice([0.0, 0.3, 0.6])
         sw['w_reuse'] = rng.choice([0.0, 0.0, 0.3, 0.6])
         return sw
 
@@ -94,6 +100,7 @@ class WorldC05(World):
         self.ref = {}        # path -> ('ok', [species dicts], meta) | ('undefined',)
         self.failed_last = set()
         self.history = []    # (step, path, 'ack'|'fail')
+        self.shape = {}      # path -> layout options and species count of the last acknowledged write
         self.last = None     # (descriptors, live Nasa objects) of the most recent write call
         self._live = None
 
@@ -116,6 +123,10 @@ class WorldC05(World):
                 s = ''.join(rng.choice(string.ascii_letters + string.digits + '()*-_') for _ in range(15))
             else:
                 s = ''.join(rng.choice(NAME_ALPHA) for _ in range(rng.randint(1, 15)))
+            if self.ctx.swarm.get('non_ascii') and rng.random() < 0.3 and s:
+                # printable, not ASCII: a micro sign, a middle dot, an accent (all have a Latin-1 code)
+                j = rng.randrange(len(s))
+                s = s[:j] + rng.choice('\u00b5\u00b7\u00e9\u00c5') + s[j + 1:]
             if rng.random() < 0.08 and self.ctx.allow('C05-name-keyword'):
                 kw = rng.choice(KEYWORDS)
                 cut = rng.randint(0, max(0, min(len(s), 15 - len(kw))))
@@ -181,6 +192,8 @@ class WorldC05(World):
             f['errno'] = rng.choice(['EIO', 'EACCES', 'EMFILE'])
         elif kind == 'read_error':
             f['k'] = rng.choice([0, 1, 2, 3, 5, rng.randint(0, 40)])
+        if kind in ('open_error', 'write_error', 'close_error') and rng.random() < 0.3:
+            f['persistent'] = True          # the condition outlasts a retry
         return f
 
     def gen_op(self, rng):
@@ -204,9 +217,13 @@ class WorldC05(World):
                 m = len(self.ref[path][1])
                 n = rng.choice([max(1, m - rng.randint(1, 3)), m + rng.randint(1, 3)])
                 n = max(1, min(n, 200))
+            shape = self.shape.get(path)
+            same_shape = bool(shape) and kind == 'write' and rng.random() < sw.get('w_same_shape', 0.0)
+            if same_shape:
+                n = shape['n']         # as many species, same layout options: a file of exactly the same length
             used = set()
             supp = None
-            if rng.random() < 0.15:
+            if rng.random() < 0.15 and not same_shape:
                 supp = [self._species(rng, used) for _ in range(rng.randint(1, 2))]
             species = [self._species(rng, used) for _ in range(n)]
             if supp and rng.random() < 0.3:
@@ -223,12 +240,17 @@ class WorldC05(World):
                 # the caller keeps its species objects, adjusts enthalpies in place (a_low[5] += dH/R) and writes again
                 m = len(self.last[0])
                 reuse = [[rng.randrange(m), round(rng.uniform(-5000, 5000), 2)] for _ in range(rng.randint(1, 3))]
-            return {'c': c, 'op': kind, 'fault': fault, 'jump': jump, 'args': {
+            args = {
                 'path': path, 'species': species, 'reuse': reuse, 'as': rng.choice(['list', 'list', 'dict', 'tuple']),
                 'write_date': rng.random() < 0.7, 'supp': supp, 'regen': rng.random() < 0.3,
                 'supp_txt': rng.choice([None, None, '! comment line', '! two\n! lines\n', '! Species APPENDED by J. ENDERS',
                                         '! LEGEND: THERMO data fitted 300-1500 K\n! END of notes']),
-                'newline': rng.choice(['\n', '\n', '\r\n'])}}
+                'newline': rng.choice(['\n', '\n', '\r\n'])}
+            if same_shape:
+                # a file of exactly the same length, written within the same tick of the file system's clock
+                args.update(write_date=shape['write_date'], supp_txt=shape['supp_txt'], newline=shape['newline'], reuse=None)
+                jump = None
+            return {'c': c, 'op': kind, 'fault': fault, 'jump': jump, 'args': args}
         rf = [k for k in sw['fault_kinds'] if k in READ_FAULTS]
         if rf and rng.random() < sw['fault_rate']:
             fault = self._fault(rng, rf)
@@ -259,6 +281,8 @@ class WorldC05(World):
                 p('zero-count-entry')
             if len(d['name']) == 15:
                 p('name-15-chars')
+            if not d['name'].isascii():
+                p('non-ascii-name')
             if d['name'][0].isdigit():
                 p('name-starts-with-digit')
             mags = [abs(v) for v in d['a_low'] + d['a_high'] if v != 0]
@@ -510,12 +534,23 @@ class WorldC05(World):
             return ('crash', e)
         except OSError as e:
             return ('oserror', e)
+        except UnicodeDecodeError as e:
+            return ('refused', e)
         finally:
             fs.uninstall()
             self.clock.uninstall()
             self._fault_used = fs.last_fault()
             self._dates = sorted(set(t.strftime('%Y%m%d') for t in self.clock.log))
             fs.disarm()
+
+    def _refused_ok(self, st, what):
+        """A file written under another locale's encoding may be refused by a UTF-8 reader - loudly.  Nothing else may."""
+        if st != 'refused':
+            return False
+        if self.ctx.swarm.get('fs_write_encoding', 'utf-8') == 'utf-8':
+            raise Violation('op-must-succeed', '%s: read_thermdat raised UnicodeDecodeError on a UTF-8 file' % what)
+        self.ctx.probe('cross-encoding-read-refused')
+        return True
 
     def _write_clean_and_verify(self, a, pname, what):
         """An un-faulted write must be acknowledged, complete, and read back exactly."""
@@ -531,7 +566,10 @@ class WorldC05(World):
             raise Violation('acknowledged-write-complete', '%s: acknowledged write left no file' % what)
         self._check_layout(text, a, a['newline'], what, date8)
         st, got = self._with_seams(lambda: self.real(self.th.read_thermdat, fs.path(pname), format='list',
-                                                     _what='read_thermdat of a file pMuTT just wrote'), None)
+                                                     _what='read_thermdat of a file pMuTT just wrote',
+                                                     _allowed=(UnicodeDecodeError,)), None)
+        if self._refused_ok(st, what):
+            return
         if st != 'ok':
             raise Violation('op-must-succeed', '%s: reading back raised %r' % (what, got))
         self._check_read(got, self._expected(a), 'list', what)
@@ -548,7 +586,10 @@ class WorldC05(World):
                 raise Violation('op-must-succeed', '%s: writing the species just read raised %r' % (what, val))
             self._check_layout(fs.durable('_gen2.dat'), a2, a['newline'], what + ' (second generation)', date8)
             st, got2 = self._with_seams(lambda: self.real(self.th.read_thermdat, fs.path('_gen2.dat'), format='list',
-                                                          _what='read_thermdat of the second-generation file'), None)
+                                                          _what='read_thermdat of the second-generation file',
+                                                          _allowed=(UnicodeDecodeError,)), None)
+            if self._refused_ok(st, what):
+                return
             if st != 'ok':
                 raise Violation('op-must-succeed', '%s: reading the second generation raised %r' % (what, got2))
             self._check_read(got2, self._expected(a), 'list', what + ' (second generation)')
@@ -562,12 +603,20 @@ class WorldC05(World):
             ctx.probe('overwrite-smaller' if len(a['species']) < len(prev[1]) else 'overwrite-larger')
         if path in self.failed_last:
             ctx.probe('write-after-failed-write')
+        sh = self.shape.get(path)
+        if sh and fault is None and sh['n'] == len(a['species']) and sh['write_date'] == a['write_date'] and \
+                sh['supp_txt'] == a.get('supp_txt') and sh['newline'] == a['newline'] and not a.get('supp'):
+            ctx.probe('same-length-overwrite')
+        if fault is not None and fault.get('persistent'):
+            ctx.probe('persistent-fault')
         if fault is None:
             self._write_clean_and_verify(a, path, 'write %s' % path)
             if path in self.failed_last:
                 ctx.probe('recovery-after-fault')
             self.failed_last.discard(path)
             self.ref[path] = ('ok', self._expected(a))
+            self.shape[path] = {'n': len(a['species']), 'write_date': a['write_date'], 'supp_txt': a.get('supp_txt'),
+                                'newline': a['newline']} if not a.get('supp') else None
             self.history.append((ctx.step, path, 'ack'))
             return 'ack %d' % len(a['species'])
         date8 = self._date8()
@@ -659,7 +708,7 @@ class WorldC05(World):
         def call():
             try:
                 return ('value', self.th.read_thermdat(fs.path(path), format=a['format']))
-            except OSError:
+            except (OSError, UnicodeDecodeError):
                 raise
             except Exception as e:       # a torn file may make the parser raise anything
                 return ('exc', e)
@@ -677,6 +726,8 @@ class WorldC05(World):
             ctx.probe('fault-did-not-fire')
         if torn:
             return 'torn: not judged'
+        if self._refused_ok(st, 'read %s' % path):
+            return 'refused (encoding)'
         if st != 'ok' or val[0] != 'value':
             e = val if st != 'ok' else val[1]
             raise Violation('op-must-succeed', 'reading the acknowledged file %s raised %s: %s' % (
@@ -717,7 +768,10 @@ class WorldC05(World):
             if state[0] != 'ok' or path.startswith('_'):
                 continue
             st, got = self._with_seams(lambda: self.real(self.th.read_thermdat, fs.path(path),
-                                                         _what='final read of acknowledged file'), None)
+                                                         _what='final read of acknowledged file',
+                                                         _allowed=(UnicodeDecodeError,)), None)
+            if self._refused_ok(st, 'final read %s' % path):
+                continue
             if st != 'ok':
                 raise Violation('acknowledged-write-readable', 'final read of %s raised %r' % (path, got))
             self._check_read(got, state[1], 'list', 'final read %s' % path)
